@@ -5,6 +5,7 @@ import (
 	"math/rand"
 	"os"
 	"reflect"
+	"strings"
 
 	"github.com/bluenviron/gomavlib/v3/pkg/message"
 )
@@ -509,6 +510,26 @@ func cmdMsg(o opts) {
 						vals[i] = []B{B(str)}
 						d.enc(di, vals, true, "collide")
 						d.enc(di, vals, false, "collide")
+					}
+				}
+			}
+			// text in UTF-8: a string is cut at its declared length in BYTES, wherever that falls - characters of 2, 3 and 4
+			// bytes that end exactly at the field's end, straddle it, or begin right after it
+			for i, s := range sh {
+				if !s.isStr || s.strlen < 4 {
+					continue
+				}
+				for _, ch := range []string{"\u00e9", "\u20ac", "\U0001F600"} {
+					for _, lead := range []int{s.strlen - len(ch), s.strlen - len(ch) + 1, s.strlen - 1, s.strlen} {
+						if lead < 0 || (!thorough && (lead+len(ch)+i+di)%2 == 0) {
+							continue
+						}
+						vals := cloneVals(zero)
+						vals[i] = []B{B(strings.Repeat("a", lead) + ch + "tail")}
+						d.enc(di, vals, (lead+di)%2 == 0, "utf8")
+						vals2 := cloneVals(zero)
+						vals2[i] = []B{B(strings.Repeat(ch, s.strlen/len(ch)+2))}
+						d.enc(di, vals2, (lead+di)%2 == 1, "utf8")
 					}
 				}
 			}
